@@ -698,6 +698,11 @@ impl Connection {
         loop {
             let len = {
                 trace!("Attempting to read message length (4 bytes, distribution protocol)...");
+                // An idle connection is not an error: a peer only has to tick every quarter of
+                // its net tick time (15 s by default), so wait for the next frame without a
+                // deadline. The timeout bounds how long a frame that has started may take.
+                let mut first_byte = [0u8; 1];
+                read_half.peek(&mut first_byte).await?;
                 let mut len_bytes = [0u8; 4];
                 tokio::time::timeout(timeout, read_half.read_exact(&mut len_bytes))
                     .await
